@@ -446,6 +446,8 @@ def run(ctx):
             elif 'isunique' in q:
                 _isunique(rep, fn)
     ctx.attempt(r102, ctx, rep)
+    rep.rule('R10.9', 'the four run detectors extract the key the same way (siblings agree): one kind of key getter, so that == between keys means the same in duplicates, unique, distinct and conflicts')
+    ctx.attempt(r109, ctx, rep)
     ctx.attempt(r103, ctx, rep)
     ctx.attempt(r104, ctx, rep)
     ctx.attempt(r105, ctx, rep)
@@ -763,3 +765,35 @@ def r105(ctx, rep):
                          % (mname, '; '.join(bad)), loop)
         else:
             rep.held('R10.5', fn, c0, 'flagged exactly when the values differ and neither is the missing marker', loop)
+
+
+# ------------------------------------------------------------------------- R10.9
+def r109(ctx, rep):
+    """duplicates and unique partition the rows only if "same key" is the same relation in both.  The detectors build
+    their getter with operator.itemgetter over the key positions (raw cells, native ==); a sibling that builds it with
+    comparable_itemgetter compares through Comparable.__eq__ (lists equal tuples, identity shortcuts lost) and disagrees
+    with the others on exactly those keys."""
+    kinds = {}
+    for fq in SITES:
+        fn = ctx.project.need_fn(fq)
+        found = set()
+        for x in own_nodes(fn.node):
+            if isinstance(x, ast.Call):
+                nm = norm(x.func).split('.')[-1]
+                if nm in ('itemgetter', 'comparable_itemgetter', 'rowgetter', 'attrgetter'):
+                    found.add(nm)
+        kinds[fn] = found
+    allk = [k for ks in kinds.values() for k in ks]
+    if not allk:
+        rep.undecided('R10.9', (MOD, '*'), 'key getters', 'no key getter construction recognised', None)
+        return
+    major = max(set(allk), key=allk.count)
+    for fn, ks in kinds.items():
+        if not ks:
+            rep.undecided('R10.9', fn, 'key getter', 'none recognised (built elsewhere)', fn.node)
+        elif ks == {major}:
+            rep.held('R10.9', fn, 'key getter: %s' % major, '', fn.node)
+        else:
+            rep.violated('R10.9', fn, 'key getter: %s' % ', '.join(sorted(ks)),
+                         'this detector builds its key getter with %s, its siblings with %s: equality of keys is not the same '
+                         'relation in all of them, so their results no longer partition the rows' % (', '.join(sorted(ks - {major})) or major, major), fn.node)
